@@ -67,6 +67,7 @@ fn main() {
                 }
                 (Some("histsim-decode"), _) => c10::replay_history(&body, path),
                 (Some("histsim-matrix"), _) => c17::replay(&body, path),
+                (Some("watchdog"), _) => harness_error("this file records a case on which the code under test did not come back; it is not re-run automatically (the case is in the file, the check that found it re-runs it)"),
                 (Some("alistsim"), _) => c08::replay(&body, path),
                 (Some("ffisim"), _) => c19::replay(&body, path),
                 (Some("clisim"), _) => c20::replay(&body, path),
